@@ -8,7 +8,7 @@ PROPS = [json.loads(l)["id"] for l in open(os.path.join(VERIF, "properties.jsonl
 m = {
   "version": 1,
   "setup_cmd": "bin/setup",
-  "hooks": {"guard": "verif", "enable": "go build -tags verif (patch/verif_hooks.go; the harness module replaces github.com/uber-go/gopatch => /repo)",
+  "hooks": {"guard": "verif", "enable": "go build -tags verif (patch/verif_hooks.go, internal/engine/verif_hooks.go, internal/astdiff/verif_hooks.go, internal/parse/verif_hooks.go; the harness module replaces github.com/uber-go/gopatch => /repo)",
             "baseline_off_cmd": BASE_OFF, "source_commits": CHECKS["hook_commits"], "add_only": True},
   "engines": [{"name": "coq-models", "path": "coq", "serves_properties": [c["id"] for c in CHECKS["checks"]],
                "kind_free_text": "Coq 8.16 models + theorems (coq/Model, coq/Proofs, coq/Properties), extracted to OCaml (ocaml/), tied to /repo by the correspondence harness (harness/, lib/, checks/)"}],
